@@ -24,10 +24,10 @@ def gen_rnd_board(seed, length, width, prob_loose_tile, max_reward=6, force_down
         rewards.append([])
         loose_tiles.append([])
         for _ in range(width):
-            rewards[i].append(min(max_reward, math.floor(
-                -math.log(
-                    1.0/2.0**(max_reward+1) +
-                    random.random()*(1.0-1.0/2.0**(max_reward+1)))/math.log(2.0))))
+            smallest_draw = 0.5**(max_reward+1)
+            draw = smallest_draw + random.random()*(1.0-smallest_draw)
+            rewards[i].append(max_reward if draw <= 0 else min(max_reward, math.floor(
+                -math.log(draw)/math.log(2.0))))
             loose_tiles[i].append(1 if random.random() < prob_loose_tile else 0)
     moves = get_random_moves(length, width, force_down)
     return moves, rewards, loose_tiles
